@@ -42,12 +42,13 @@ class State:
         if my_predicates != other_predicates:
             return False
 
+        # comparing the values numerically (the printed form distinguishes 0.0 from -0.0 and 1 from 1.0).
         my_numeric_expressions = {
-            expression.state_representation
+            (expression.state_representation.rsplit(" ", 1)[0], float(expression.value))
             for expression in self.state_fluents.values()
         }
         other_numeric_expressions = {
-            expression.state_representation
+            (expression.state_representation.rsplit(" ", 1)[0], float(expression.value))
             for expression in other.state_fluents.values()
         }
 
